@@ -34,11 +34,20 @@ var solvers = []solverSpec{
 	{"z3-5.1.0", func(f string, t int) []string {
 		return []string{"z3-new", fmt.Sprintf("-T:%d", t), "smt.mbqi=false", "auto_config=false", f}
 	}},
+	{"z3-5.1.0-cs3", func(f string, t int) []string {
+		return []string{"z3-new", fmt.Sprintf("-T:%d", t), "smt.mbqi=false", "auto_config=false", "smt.case_split=3", f}
+	}},
+	{"z3-5.1.0-arith2", func(f string, t int) []string {
+		return []string{"z3-new", fmt.Sprintf("-T:%d", t), "smt.mbqi=false", "auto_config=false", "smt.arith.solver=2", "smt.random_seed=7", f}
+	}},
 	{"cvc5-1.0", func(f string, t int) []string {
 		return []string{"cvc5", "--lang=smt2", fmt.Sprintf("--tlimit=%d", t*1000), f}
 	}},
 	{"z3-4.8.12", func(f string, t int) []string {
 		return []string{"z3", fmt.Sprintf("-T:%d", t), "smt.mbqi=false", "auto_config=false", f}
+	}},
+	{"z3-4.8.12-cs3", func(f string, t int) []string {
+		return []string{"z3", fmt.Sprintf("-T:%d", t), "smt.mbqi=false", "auto_config=false", "smt.case_split=3", f}
 	}},
 	{"z3-5.1.0-mbqi", func(f string, t int) []string {
 		return []string{"z3-new", fmt.Sprintf("-T:%d", t), f}
@@ -81,7 +90,8 @@ func runSolver(ctx context.Context, sp solverSpec, file string, timeoutS int) (s
 }
 
 // writeObligation renders the SMT-LIB text of an obligation.
-func writeObligation(prelude string, cmds []string, o *Obligation, wantModel bool) string {
+func writeObligation(prelude string, fr *FuncResult, o *Obligation, wantModel bool) string {
+	cmds := fr.Cmds
 	var sb strings.Builder
 	if wantModel {
 		sb.WriteString("(set-option :produce-models true)\n")
@@ -89,7 +99,16 @@ func writeObligation(prelude string, cmds []string, o *Obligation, wantModel boo
 	sb.WriteString("(set-logic ALL)\n")
 	sb.WriteString(prelude)
 	sb.WriteString("; ---- function encoding ----\n")
-	for _, c := range cmds[:o.Idx] {
+	var anc []bool
+	if o.Block >= 0 && o.Block < len(fr.Anc) {
+		anc = fr.Anc[o.Block]
+	}
+	for i, c := range cmds[:o.Idx] {
+		if anc != nil && i < len(fr.CmdTag) {
+			if t := fr.CmdTag[i]; t >= 0 && t < len(anc) && !anc[t] {
+				continue // emitted in a block that cannot reach this obligation
+			}
+		}
 		sb.WriteString(c)
 		sb.WriteByte('\n')
 	}
@@ -136,19 +155,33 @@ func solveAll(prelude string, frs []*FuncResult, lemmas []*Lemma, cfg solveConfi
 	type job struct {
 		o    *Obligation
 		text string
+		res  int // index into results
 	}
 	var jobs []job
+	var results []*SolveResult
 	for _, fr := range frs {
 		for _, o := range fr.Obls {
-			jobs = append(jobs, job{o, writeObligation(prelude, fr.Cmds, o, false)})
+			results = append(results, &SolveResult{Obl: o, Status: "unsat"})
+			ri := len(results) - 1
+			if len(o.Cases) > 0 {
+				for _, c := range o.Cases {
+					oc := *o
+					oc.Cases = nil
+					oc.Idx, oc.Guard, oc.Goal, oc.Block = c.Idx, c.Guard, c.Goal, c.Block
+					jobs = append(jobs, job{o, writeObligation(prelude, fr, &oc, false), ri})
+				}
+			} else {
+				jobs = append(jobs, job{o, writeObligation(prelude, fr, o, false), ri})
+			}
 		}
 	}
 	for _, l := range lemmas {
 		o := &Obligation{Name: "lemma:" + l.Name, Kind: "lemma", Func: "spec", Props: l.Props, Desc: "specification-level lemma"}
-		jobs = append(jobs, job{o, "(set-logic ALL)\n" + prelude + "; ---- lemma " + l.Name + " ----\n" + l.Body + "(check-sat)\n"})
+		results = append(results, &SolveResult{Obl: o, Status: "unsat"})
+		jobs = append(jobs, job{o, "(set-logic ALL)\n" + prelude + "; ---- lemma " + l.Name + " ----\n" + l.Body + "(check-sat)\n", len(results) - 1})
 	}
-	results := make([]*SolveResult, len(jobs))
 	var wg sync.WaitGroup
+	var mu sync.Mutex
 	sem := make(chan struct{}, cfg.workers)
 	os.MkdirAll(cfg.dir, 0o755)
 	for i := range jobs {
@@ -161,7 +194,22 @@ func solveAll(prelude string, frs []*FuncResult, lemmas []*Lemma, cfg solveConfi
 			file := filepath.Join(cfg.dir, fmt.Sprintf("o%05d.smt2", i))
 			os.WriteFile(file, []byte(j.text), 0o644)
 			r := solveOne(j.o, file, cfg)
-			results[i] = r
+			mu.Lock()
+			agg := results[j.res]
+			agg.TimeS += r.TimeS
+			if agg.Solver == "" {
+				agg.Solver = r.Solver
+			}
+			if r.Confirm != "" {
+				agg.Confirm = r.Confirm
+			}
+			// the obligation is discharged only if every case is
+			if j.o.Vacuity {
+				agg.Status, agg.Solver, agg.Output, agg.File = r.Status, r.Solver, r.Output, r.File
+			} else if r.Status != "unsat" && agg.Status == "unsat" {
+				agg.Status, agg.Solver, agg.Output, agg.File = r.Status, r.Solver, r.Output, r.File
+			}
+			mu.Unlock()
 			if !cfg.keepFiles && (r.Status == "unsat" && !j.o.Vacuity || j.o.Vacuity && r.Status != "unsat") {
 				os.Remove(file)
 			}
@@ -176,51 +224,64 @@ func solveOne(o *Obligation, file string, cfg solveConfig) *SolveResult {
 	res := &SolveResult{Obl: o, File: file}
 	// stage 1: z3 5.1 with a short limit
 	short := cfg.timeoutS
-	if short > 3 {
-		short = 3
+	if short > 2 {
+		short = 2
 	}
 	st, out, el := runSolver(ctx, solvers[0], file, short)
 	res.TimeS += el
-	if st == "unsat" || st == "sat" || (o.Vacuity && st == "unknown") || cfg.stage1Only(o) {
+	done := func(s string) bool { return s == "unsat" || s == "sat" }
+	if done(st) || (o.Vacuity && st == "unknown") || cfg.stage1Only(o) {
 		res.Status, res.Solver, res.Output = st, solvers[0].name, out
 	} else {
-		// stage 2: race the portfolio
-		type ans struct {
-			st, out, name string
-			el            float64
+		// stage 2: the configuration that decides most of the hard goals, alone
+		mid := cfg.timeoutS
+		if mid > 10 {
+			mid = 10
 		}
-		cctx, cancel := context.WithCancel(ctx)
-		ch := make(chan ans, len(solvers))
-		for _, sp := range solvers {
-			go func(sp solverSpec) {
-				s, o2, e2 := runSolver(cctx, sp, file, cfg.timeoutS)
-				ch <- ans{s, o2, sp.name, e2}
-			}(sp)
-		}
-		best := ans{st: st, out: out, name: solvers[0].name}
-		for range solvers {
-			a := <-ch
-			if a.st == "unsat" || a.st == "sat" {
-				// an mbqi-free "sat" is only a candidate; prefer unsat from anyone
-				best = a
-				if a.st == "unsat" {
-					break
-				}
-				if best.st == "sat" {
-					break
-				}
-			} else if best.st != "unsat" && best.st != "sat" && a.st == "unknown" {
-				best = a
+		st2, out2, el2 := runSolver(ctx, solvers[1], file, mid)
+		res.TimeS += el2
+		if done(st2) {
+			res.Status, res.Solver, res.Output = st2, solvers[1].name, out2
+		} else {
+			// stage 3: race the rest of the portfolio
+			type ans struct {
+				st, out, name string
+				el            float64
 			}
+			cctx, cancel := context.WithCancel(ctx)
+			rest := solvers[2:]
+			if cfg.timeoutS > mid {
+				rest = solvers[1:]
+			}
+			ch := make(chan ans, len(rest))
+			for _, sp := range rest {
+				go func(sp solverSpec) {
+					s, o2, e2 := runSolver(cctx, sp, file, cfg.timeoutS)
+					ch <- ans{s, o2, sp.name, e2}
+				}(sp)
+			}
+			best := ans{st: st2, out: out2, name: solvers[1].name}
+			if st == "unknown" {
+				best = ans{st: st, out: out, name: solvers[0].name}
+			}
+			for range rest {
+				a := <-ch
+				if done(a.st) {
+					best = a
+					break
+				} else if !done(best.st) && a.st == "unknown" {
+					best = a
+				}
+			}
+			cancel()
+			res.Status, res.Solver, res.Output = best.st, best.name, best.out
+			res.TimeS += best.el
 		}
-		cancel()
-		res.Status, res.Solver, res.Output = best.st, best.name, best.out
-		res.TimeS += best.el
 	}
 	if res.Status == "unsat" && cfg.confirm && !o.Vacuity {
 		// confirm with a different solver
 		for _, sp := range solvers {
-			if sp.name == res.Solver || strings.HasPrefix(sp.name, "z3-5.1.0") && strings.HasPrefix(res.Solver, "z3-5.1.0") {
+			if sp.name == res.Solver || (strings.HasPrefix(sp.name, "z3-5.1.0") && strings.HasPrefix(res.Solver, "z3-5.1.0")) || (strings.HasPrefix(sp.name, "z3-4.8.12") && strings.HasPrefix(res.Solver, "z3-4.8.12")) {
 				continue
 			}
 			s, _, _ := runSolver(ctx, sp, file, cfg.timeoutS)
